@@ -61,7 +61,13 @@ def judge_translate(f, ref, w, sub="translate", extra_tags=()):
         return
     core.LOG.count("C16.translate")
     maxout = max([len(o) for o in exp] + [0])
-    budget = 100 * (len(w) + 1) * (len(ref.states) + 1) * (len(ref.trans) + 1) * (maxout + 2) + 5000
+    # the library follows every path (no sharing between paths that differ in their output only): the number of paths
+    # grows with the out-degree of the states to the power of the word length, also when nothing is accepted
+    deg = {}
+    for tr in ref.trans:
+        deg[tr[0]] = deg.get(tr[0], 0) + 1
+    paths = min(20000, max(list(deg.values()) + [1]) ** (len(w) + 1))
+    budget = 100 * (len(w) + 1) * (len(ref.states) + 1) * (len(ref.trans) + 1) * (maxout + 2) + 5000 + 400 * paths
     got = []
     try:
         with core.step_budget(budget):
